@@ -200,6 +200,8 @@ Lemma pad_loop_ok n : forall len, 0 <= len ->
 Proof.
   induction n as [|n IH]; intros len H; cbn [pad_loop dm_pads_ok]; auto.
   rewrite pad_codeword_unrandomise by assumption.
+  pose proof (pad_codeword_range len H) as R.
+  replace (1 <=? pad_codeword len) with true by lia. replace (pad_codeword len <=? 254) with true by lia.
   rewrite IH by lia. reflexivity.
 Qed.
 
